@@ -63,6 +63,21 @@ example : pureOps [⟨[], .initOther ["cipherImplementations"]⟩,
 example : (Gen.validateOps.filter fun op => match op.act with | .mutate .. => true | _ => false).length ≥ 3 := by
   decide
 
+/-- **Purity across use.**  The copy handed out by `validate()` shares list objects with its receiver
+    (`finalTaint` of the generated alias structure, on every path); the translator's scan of every other
+    tlslite module finds no in-place change (`.remove/.append/.sort/…`, `del x[i]`, slice or augmented
+    assignment, also through a local alias) of such a list and no settings list stored by reference
+    where the scan cannot follow it.  So handshake code working on a validated copy cannot change the
+    caller's object through a shared list.  (Both sides are regenerated from the source on every run.) -/
+theorem use_never_mutates_shared_lists :
+    useSafe Gen.validateOps Gen.useMutatedFields = true ∧ Gen.useScanProblems = [] := by decide
+
+-- non-vacuity: `versions` IS shared on some path, so an in-place change of it anywhere would break the
+-- obligation; `cipherImplementations` is always copied first
+example : useSafe Gen.validateOps ["versions"] = false := by decide
+example : useSafe Gen.validateOps ["keyShares"] = false := by decide
+example : useSafe Gen.validateOps ["cipherImplementations"] = true := by decide
+
 /-- the translator classified every module-level statement and every default, and its symbolic
     values agree with the imported module -/
 theorem gen_settings_classified : Gen.constsOk = true ∧ Gen.defaultsOk = true := by decide
